@@ -229,6 +229,12 @@ CORPUS = [
     {'netlist': ['R1 0 1 2', 'R2 0 2 3', 'R3 3 0 8', 'V1 0 m79 ac -1 {pi/2} 2', 'R4 m79 2 1', 'R5 1 0 1', 'C1 1 3 {7/3}', 'L1 1 0 8', 'R6 1 0 7', 'R7 3 0 2'],
      'src': [{'name': 'V1', 'prefix': 'V1 0 m79', 'desc': {'form': 'ac', 'A': '-1', 'k': 1, 'w': '2'}}],
      'transfer': ['0', 'm79', '1', '0'], 'transfer_src': 'V1', 'transfer_elt': 'R5', 'transfer_cpu_s': 4},
+    # symbolic angular frequency (the default omega_0 of `ac A phi`), compared with the textbook solution at omega_0 = 3/2 and 2
+    {'netlist': ['V1 1 0 ac 3 {pi/2}', 'R1 1 2 2', 'C1 2 0 {1/3}', 'L1 2 3 4', 'R2 3 0 5', 'I1 0 2 ac 2'], 'omega_subs': '3/2',
+     'src': [{'name': 'V1', 'prefix': 'V1 1 0', 'desc': {'form': 'ac', 'A': '3', 'k': 1, 'w': '3/2'}},
+             {'name': 'I1', 'prefix': 'I1 0 2', 'desc': {'form': 'ac', 'A': '2', 'k': 0, 'w': '3/2'}}]},
+    {'netlist': ['V1 1 0 ac 2', 'R1 1 2 1', 'L1 2 0 2', 'L2 3 0 2', 'K1 L1 L2 {1/2}', 'R2 3 0 4', 'C1 3 0 {1/5}'], 'omega_subs': '2',
+     'src': [{'name': 'V1', 'prefix': 'V1 1 0', 'desc': {'form': 'ac', 'A': '2', 'k': 0, 'w': '2'}}]},
 ]
 for _c in CORPUS:
     _c.setdefault('tags', ['corpus'])
@@ -623,6 +629,9 @@ def build_checks(ci, case, wr, tr, res):
     for wkey, ad in wr.get('ac', {}).items():
         if 'error' in ad:
             res.count('ac_kind_error')
+            continue
+        if ad.get('symbolic'):
+            res.count('symbolic_omega_kind')      # compared by the search oracle only
             continue
         sub, sd = ad['sub'], ad['s']
         wl = qc(wkey)
@@ -1029,8 +1038,8 @@ def run(tier='quick', replay=None):
                 return 'ode-substitution:' + str(case.get('ode'))
             if what.startswith('transfer') and ladder:
                 return 'NetlistOpsMixin.transfer:ladder-shortcut'
-            if what.startswith('transfer'):
-                return None
+            if what.startswith('transfer') and not what.startswith('transfer_phasor'):
+                return None           # the transfer function itself does not depend on the source values
             if has_same_omega_terms(case):
                 return 'tdomain-source:same-omega-terms'
             return None
@@ -1046,7 +1055,7 @@ def run(tier='quick', replay=None):
         have_input = bool(res.counterexamples)
         for d in res.disagreements:
             kind_of = d['check'].split('/')[-1].split('_')[0] if not d['check'].startswith('phasor/') else 'phasor'
-            fp = fingerprint(d['case'], kind_of, d['check'].endswith('@ladder')) if d['case'].get('mode') != 'phasor' else None
+            fp = fingerprint(d['case'], d['check'].split('/')[-1], d['check'].endswith('@ladder')) if d['case'].get('mode') != 'phasor' else None
             key = fp or ('correspondence:' + kind_of)
             if key in seen:
                 continue
